@@ -44,6 +44,9 @@ CLAIMS = {
             "identities model-checked; 20 operators x shapes x argument layouts replayed on the real package, shape and entries compared exactly by TLC", "4 C16"),
     "C17": ("model_checking", "AGM with a user-defined product primitive and a rule table {rule, None, missing}: arities 1..4 x differentiated subsets x "
             "trace-level assignments x registration APIs; checkpoint == plain call for value and reverse-mode derivatives of order 1-2; replayed and judged by TLC", "4 C17"),
+    "C18": ("exploration", "Checker.tla: the recursion of check_grads over modes and order is model-checked (EveryModePathChecked) and bound to the code by "
+            "probes on check_vjp/check_jvp; the verdict table (correct rules accepted, planted defects rejected) is sampled with 40/400 random projections "
+            "per cell and judged by TLC against a binomial threshold: statistical evidence, not a decision", "4 C18"),
     "C19": ("model_checking", "AGM with faults at every instruction of the innermost function, in the backward pass and at trace exit, caught at every "
             "enclosing level, followed by canaries; replayed in one process per worker and judged by TLC", "4 C19"),
     "C20": ("model_checking", "AGM with 2-3 threads: all interleavings model-checked; TLC-exported schedules replayed with real threads under a strict "
